@@ -49,6 +49,10 @@ Definition sweep_consts : bool :=
       Bool.eqb (N.eqb (enc h c) 72) (N.eqb (upper c) 71) &&
       Bool.eqb (N.eqb (enc h c) 24) (N.eqb (upper c) 84) &&
       Bool.eqb (N.eqb (enc h c) (if h then 4 else 244)) (N.eqb c 45))) all_bytes) bools.
+(* letter case never matters to the encoding *)
+Definition sweep_case : bool :=
+  forallb (fun h => forallb (fun c => N.eqb (enc h (upper c)) (enc h c) && N.eqb (enc h (lower c)) (enc h c)) all_bytes) bools.
+
 (* completeness score: 12 / |denoted set| (N,?,- score 3), same in text and encoded form *)
 Definition card_score (c : N) : Z :=
   match denote false c with
